@@ -13,6 +13,8 @@ import (
 	"runtime"
 	"strings"
 	"sync"
+	"sync/atomic"
+	"time"
 
 	"verifharness/gen"
 	"verifharness/refmcap"
@@ -35,8 +37,33 @@ type obsRead struct {
 
 func canon(v any) string { return fmt.Sprintf("%v", v) }
 
-// readVia reads src to its end through one of the public read paths.
+// readVia reads src to its end through one of the public read paths.  A read that does not come back within the
+// deadline (two minutes of wall clock for an input of a few KiB: five orders of magnitude above its normal duration, so
+// machine load cannot explain it) is reported as ending in "hang"; its goroutine is abandoned.
 func readVia(src io.Reader, via string, validate, emitInvalid, skipMagic bool) *obsRead {
+	done := make(chan *obsRead, 1)
+	go func() { done <- readViaNow(src, via, validate, emitInvalid, skipMagic) }()
+	select {
+	case o := <-done:
+		return o
+	case <-time.After(readDeadline()):
+		atomic.AddInt32(&hangs, 1)
+		return &obsRead{end: "hang", err: errors.New("verif: the read did not return")}
+	}
+}
+
+var hangs int32
+
+// once a few reads have hung (the tree is broken, and every abandoned goroutine keeps a core busy) the remaining reads
+// get a shorter leash so that the run still ends
+func readDeadline() time.Duration {
+	if atomic.LoadInt32(&hangs) >= 3 {
+		return 20 * time.Second
+	}
+	return 120 * time.Second
+}
+
+func readViaNow(src io.Reader, via string, validate, emitInvalid, skipMagic bool) *obsRead {
 	o := &obsRead{}
 	switch via {
 	case "lex", "lexc": // lexc: the caller's own (lenient) zstd / lz4 decompressors instead of the built-in ones
@@ -476,22 +503,22 @@ func readCases(tr *wl.Trace, mode, only string, w wl.Workload, b []byte, f *refm
 							continue
 						}
 						for _, via := range []string{"lex", "lexc"} {
-						if via == "lexc" && (target == "att" || len(rec.Compression) == 0 || bit%3 != 0) {
-							continue // caller-supplied decoders: compressed chunks, every third bit
-						}
-						p, bit, emitInvalid, ri, target, via := p, bit, emitInvalid, ri, target, via
-						add(func() wl.Ev {
-							mut := append([]byte{}, b...)
-							mut[p] ^= 1 << bit
-							o := readVia(bytes.NewReader(mut), via, true, emitInvalid, false)
-							e := wl.Ev{"ev": "Flip", "via": via, "target": target, "rec": ri, "pos": p, "bit": bit, "emitInvalid": emitInvalid, "n": len(o.canon),
-								"idx": matchIdx(full.o, o, full.toks), "end": o.end, "why": errStr(o.err)}
-							if target == "att" {
-								// the token standing where the attachment stood: exposed iff an error ended the read first or its CRCs disagree
-								e["attseen"], e["attmatch"] = attachmentAt(mut, ri, f)
+							if via == "lexc" && (target == "att" || len(rec.Compression) == 0 || bit%3 != 0) {
+								continue // caller-supplied decoders: compressed chunks, every third bit
 							}
-							return e
-						})
+							p, bit, emitInvalid, ri, target, via := p, bit, emitInvalid, ri, target, via
+							add(func() wl.Ev {
+								mut := append([]byte{}, b...)
+								mut[p] ^= 1 << bit
+								o := readVia(bytes.NewReader(mut), via, true, emitInvalid, false)
+								e := wl.Ev{"ev": "Flip", "via": via, "target": target, "rec": ri, "pos": p, "bit": bit, "emitInvalid": emitInvalid, "n": len(o.canon),
+									"idx": matchIdx(full.o, o, full.toks), "end": o.end, "why": errStr(o.err)}
+								if target == "att" {
+									// the token standing where the attachment stood: exposed iff an error ended the read first or its CRCs disagree
+									e["attseen"], e["attmatch"] = attachmentAt(mut, ri, f)
+								}
+								return e
+							})
 						}
 					}
 				}
